@@ -352,13 +352,13 @@ def gen_program(rng, crate, index, size):
             P.dump_expect.pop()       # `types = []` / `consts = []` register nothing at all
         return b
 
-    def add_module(modpath, indent, depth, force_ident=None, min_items=1):
+    def add_module(modpath, indent, depth, force_ident=None, min_items=1, force_group=None):
         name = force_ident or pick_ident(tuple(modpath))
         pretty = name.replace("r#", "")
         pad = "    " * indent
-        grouped = rng.random() < 0.6
+        grouped = rng.random() < 0.6 or force_group is not None
         if grouped:
-            parts, exp_opts, ignore_attr = gen_options(rng, "group", False)
+            parts, exp_opts, ignore_attr = gen_options(rng, "group", False) if force_group is None else force_group
             display = pretty
             shown = used_names.setdefault(("display",) + tuple(modpath), set())
             if (rng.random() < 0.4 or display in shown) and not force_ident:
@@ -404,6 +404,14 @@ def gen_program(rng, crate, index, size):
             add_bench(sub, 1, nested_ok=False, force_kind="consts_ext", force_form=form)
         for k in ("plain", "bencher", "types", "consts", "both", "both", "types_args", "consts_args"):
             add_bench(sub, 1, nested_ok=(k in ("plain", "bencher")), force_kind=k)
+        body.append("}")
+        # groups on modules named by raw identifiers: the group's own entry and the module path of its benchmarks must meet
+        body.append("mod raw_groups {")
+        body.append("    use std::time::Duration;")
+        sub = [crate, "raw_groups"]
+        add_module(sub, 1, 3, force_ident="r#try", min_items=2, force_group=(["ignore"], {"ig": True}, False))
+        add_module(sub, 1, 3, force_ident="r#match", min_items=2, force_group=(["threads = [1, 2]", "items_count = 7u8"], {"th": [1, 2], "c3": 7}, False))
+        add_module(sub, 1, 3, force_ident="r#loop", min_items=1, force_group=([], {"ig": True}, True))
         body.append("}")
         # a function and a sibling module of the same name (separate namespaces), declared in both orders
         body.append("mod twins {")
